@@ -63,7 +63,8 @@ for name, (prop, needs, caught) in T.items():
     meta = dict(
         property=prop, breaks=needs.split(":")[0] if False else None,
         needs_to_manifest=needs,
-        origin="written by a fresh sub-agent that was given only the text of the property and its own scratch worktree of rollbear/trompeloeil (nothing from /verif)",
+        origin="written by a fresh sub-agent that was given only the text of the property and its own scratch worktree of rollbear/trompeloeil (nothing from /verif)"
+               + ("; round 2: it was also told, in one sentence, which change had already been delivered for this property and asked for a different site, mechanism and trigger" if "-r2-" in name else ""),
         confirmed=dict(how="bin/seedcheck %s --suite <props>: scratch worktree of /repo HEAD + patch.diff; demonstration built against /repo/include and against the patched tree; repository self_test built and run on the patched tree; bin/check <prop> --tier quick with VERIF_REPO pointing at the patched tree (evidence and found replays diverted to build/scratch)" % ("seeded/" + name),
                        demonstration=demo, repository_suite_with_change=suite),
         checks_quick_tier=checks,
